@@ -103,6 +103,9 @@ impl Intern<Ty> {
     #[verifier::external_body]
     pub fn enum_layout(&self) -> (r: Option<EnumLayout>)
         ensures has_enum_layout(*self.0) ==> r is Some && r->0.view() == tenum(*self.0)
-                    && enum_layout_ok(*self.0, tenum(*self.0))
+                    && enum_layout_ok(*self.0, tenum(*self.0)),
+                // T4 (ASSUMED): the enum-layout table has entries only for tagged types --
+                // calc_single inserts one only in its Enum / ErrorUnion / non-pointer Optional arms
+                (self.0 is Optional && !has_enum_layout(*self.0)) ==> r is None,
     { unimplemented!() }
 }
